@@ -93,6 +93,11 @@ M = [
  ("m31-default-tokenizer-qval-drift", P+"join/edit_distance_join_py.py",
   "    # convert threshold to integer (incase if it is float)\n",
   "    if threshold > 2 and tokenizer.qval < 3:\n        tokenizer.qval += 1\n\n    # convert threshold to integer (incase if it is float)\n"),
+ ("m32-suffix-hamming-budget-minus-1", P+"filter/suffix_filter.py",
+  "        hamming_dist_max = (l_num_tokens + r_num_tokens - 2 * overlap_threshold)\n",
+  "        hamming_dist_max = (l_num_tokens + r_num_tokens - 2 * overlap_threshold) - 1\n"),
+ ("m33-suffix-max-depth-3", P+"filter/suffix_filter.py",
+  "        self.max_depth = 2\n", "        self.max_depth = 3\n"),
 ]
 os.makedirs(OUT, exist_ok=True)
 for name, path, old, new in M:
